@@ -14,6 +14,7 @@ import (
 	"github.com/kubeshark/base/pkg/api"
 	httpExt "github.com/kubeshark/base/pkg/extensions/http"
 	"ksverif/harness/internal/mock"
+	"ksverif/harness/internal/stages"
 	"ksverif/harness/internal/sx"
 )
 
@@ -24,6 +25,8 @@ import (
 //	(resp status minor (hdr ...) #body) orient) ...) (left nreq nresp))
 func init() {
 	families["http.conv"] = &Family{Gen: genHttpConv, Run: runHttpConv}
+	families["http.split"] = &Family{Gen: genHttpSplit, Run: runHttpSplit}
+	families["http.entry"] = &Family{Gen: genHttpEntry, Run: runHttpEntry}
 }
 
 func harHeaders(v interface{}) sx.Sx {
@@ -80,7 +83,50 @@ func minorOf(v interface{}) int {
 	return -1
 }
 
-func runHttpConv(p sx.Sx) sx.Sx {
+func runHttpConv(p sx.Sx) sx.Sx { return runHttpConvSplit(p, nil, nil) }
+
+// http.split (C08): payload (conv (len ...) (len ...)): the conversation of http.conv, each half
+// delivered in reads of the given lengths (the rest in one more read)
+func runHttpSplit(p sx.Sx) sx.Sx {
+	lens := func(x sx.Sx) []int {
+		out := []int{}
+		for _, l := range x.List {
+			out = append(out, int(l.Int()))
+		}
+		return out
+	}
+	return runHttpConvSplit(p.List[0], lens(p.List[1]), lens(p.List[2]))
+}
+
+func genHttpSplit(r *Rand, tier string, emit func(sx.Sx)) {
+	n := 0
+	genHttpConv(r, tier, func(conv sx.Sx) {
+		n++
+		if n%5 != 0 || strings.Contains(conv.String(), "(req #48454144 ") {
+			// HEAD exchanges mis-frame what follows (recorded finding of C03): not part of this family
+			return
+		}
+		mk := func() sx.Sx {
+			var ls []sx.Sx
+			for k := r.Intn(12); k > 0; k-- {
+				switch r.Intn(4) {
+				case 0:
+					ls = append(ls, sx.N(1))
+				case 1:
+					ls = append(ls, sx.N(1+r.Intn(40)))
+				case 2:
+					ls = append(ls, sx.N(4090+r.Intn(12)))
+				default:
+					ls = append(ls, sx.N(1+r.Intn(600)))
+				}
+			}
+			return sx.L(ls...)
+		}
+		emit(sx.L(conv, mk(), mk()))
+	})
+}
+
+func runHttpConvSplit(p sx.Sx, clens, slens []int) sx.Sx {
 	cb, sb := encHttpConv(p)
 	d := httpExt.NewDissector()
 	stats := &api.AppStats{}
@@ -92,7 +138,16 @@ func runHttpConv(p sx.Sx) sx.Sx {
 				res = "panic:" + fmt.Sprintf("%x", fmt.Sprint(rec))
 			}
 		}()
-		_ = d.Dissect(bufio.NewReader(bytes.NewReader(b)), r)
+		lens := clens
+		if !r.IsClient {
+			lens = slens
+		}
+		if lens == nil {
+			_ = d.Dissect(bufio.NewReader(bytes.NewReader(b)), r)
+			return "ok"
+		}
+		chunks := splitBytes(b, lens)
+		_ = d.Dissect(bufio.NewReader(&chunkReader{chunks: chunks, tail: "eof"}), r)
 		return "ok"
 	}
 	ck := half(cb, conn.Client)
@@ -135,4 +190,77 @@ func runHttpConv(p sx.Sx) sx.Sx {
 		parts = append(parts, sx.L(sx.A("panic"), sx.A(ck), sx.A(sk)))
 	}
 	return sx.L(parts...)
+}
+
+// Family http.entry (C03): what Analyze derives from an item - path, query parameters (a repeated
+// key reports the list of its values in order), method, status - after the JSON round trips of
+// worker and hub.  observation: ((e #method #path (q (#key #v | (l #v ...)) ...) status) ...), keys sorted
+func runHttpEntry(p sx.Sx) sx.Sx {
+	cb, sb := encHttpConv(p)
+	d := httpExt.NewDissector()
+	out := make(chan *api.OutputChannelItem, 1<<12)
+	conn := mock.NewConn(d, d.NewResponseRequestMatcher(), &api.AppStats{}, out, "pcap0", "10.0.0.1", "40000", "10.0.0.2", "80")
+	half := func(b []byte, r *mock.Reader) {
+		defer func() { _ = recover() }()
+		_ = d.Dissect(bufio.NewReader(bytes.NewReader(b)), r)
+	}
+	half(cb, conn.Client)
+	half(sb, conn.Server)
+	close(out)
+	var obs []sx.Sx
+	for it := range out {
+		res := stages.Run(d, it)
+		if res.Panic != "" || res.Entry == nil {
+			obs = append(obs, sx.L(sx.A("stage-failed"), sx.S(res.Panic+res.Err)))
+			continue
+		}
+		req := res.Entry.Request
+		method, _ := req["method"].(string)
+		path, _ := req["path"].(string)
+		status, _ := res.Entry.Response["status"].(float64)
+		q := []sx.Sx{sx.A("q")}
+		if qs, ok := req["queryString"].(map[string]interface{}); ok {
+			var keys []string
+			for k := range qs {
+				keys = append(keys, k)
+			}
+			sort.Slice(keys, func(i, j int) bool { return fmt.Sprintf("%x", keys[i]) < fmt.Sprintf("%x", keys[j]) })
+			for _, k := range keys {
+				switch v := qs[k].(type) {
+				case string:
+					q = append(q, sx.L(sx.S(k), sx.S(v)))
+				case []interface{}:
+					l := []sx.Sx{sx.A("l")}
+					for _, x := range v {
+						xs, _ := x.(string)
+						l = append(l, sx.S(xs))
+					}
+					q = append(q, sx.L(sx.S(k), sx.L(l...)))
+				default:
+					q = append(q, sx.L(sx.S(k), sx.A("?")))
+				}
+			}
+		}
+		obs = append(obs, sx.L(sx.A("e"), sx.S(method), sx.S(path), sx.L(q...), sx.N(int(status))))
+	}
+	return sx.L(obs...)
+}
+
+func genHttpEntry(r *Rand, tier string, emit func(sx.Sx)) {
+	// targets with repeated keys, empty values, keys without '=', percent-escapes and '+'
+	targets := []string{"/s?tag=1&tag=2", "/s?tag=1,2", "/s?a=1&b=2&a=3&a=4", "/s?k", "/s?k=&k=v", "/p%20q/r?x=%41%20b&y=c+d", "/", "/plain",
+		"http://host.example/abs?z=1&z=2", "/s?tag=1&tag=1"}
+	host := sx.L(sx.L(sx.S("Host"), sx.S("host.example")))
+	for _, t := range targets {
+		req := sx.L(sx.A("req"), sx.S("GET"), sx.S(t), sx.N(1), host, sx.A("none"), sx.B(nil))
+		resp := sx.L(sx.A("resp"), sx.N(200), sx.S("OK"), sx.N(1), sx.L(), sx.A("cl"), sx.B([]byte("ok")))
+		emit(sx.L(sx.L(sx.A("ex"), req, resp)))
+	}
+	n := 0
+	genHttpConv(r, tier, func(conv sx.Sx) {
+		n++
+		if n%4 == 0 {
+			emit(conv)
+		}
+	})
 }
